@@ -19,6 +19,29 @@ var skText = map[string]string{
 	"endfor": "{% endfor %}", "switch": "{% switch x %}", "case": "{% case 1 %}", "default": "{% default %}", "endswitch": "{% endswitch %}", "leaf": "{%= x %}", "text": "t",
 }
 
+// every accepted way of writing a block tag closes and nests like the common one: the tag at position
+// i of a skeleton is written in one of these spellings (a function of the position, so that replays agree)
+var skSpell = map[string][]string{
+	"if":        {"{% if x == 1 %}", "{% if len(x) > 0 %}", "{% if lenEq0(x) %}", "{%if x!=1%}", "{% if v, ok := f(x).(T); ok %}", "{% if cap(a.b) >= 2 %}", "{% if v, ok := f(x) as T; !ok %}", `{% if "a b" != s %}`},
+	"for":       {"{% for i := 0; i < 2; i++ %}", "{% for i = 0; i < 2; i++ %}", "{% for i:=0;i<2;i++ %}", "{%for i := 3; i >= -1; i-- sep ,%}", "{% for i = a; i != b.c; i++ separator | %}"},
+	"forr":      {"{% for _, v := range user.Finance.History %}", "{% for k,v = range a.b %}", "{% for k := range m %}", "{% for _,v:=range x sep ; %}", "{% for k , v := range a.b.c separator , %}"},
+	"switch":    {"{% switch x %}", "{% switch %}", "{%switch a.b%}"},
+	"case":      {"{% case 1 %}", "{% case x == 1 %}", "{% case 'q' %}", "{% case lenEq0(x) %}", "{%case -1%}"},
+	"else":      {"{% else %}", "{%else%}"},
+	"endif":     {"{% endif %}", "{%endif%}", "{% endif%}"},
+	"endfor":    {"{% endfor %}", "{%endfor%}"},
+	"endswitch": {"{% endswitch %}", "{%endswitch%}"},
+	"default":   {"{% default %}", "{%default%}"},
+	"leaf":      {"{%= x %}", "{%j= x|default(1) %}", "{% ctx a = b %}", "{% cntr c++ %}", "{%= a == 1 ? x : y %}", "{% . sub other %}", "{% endl %}", "{%= x pfx [ sfx ] %}", "{% context a, ok = b.c|default(\"x\") as static %}"},
+}
+
+func skTagText(t string, i, n int) string {
+	if v, ok := skSpell[t]; ok {
+		return v[(i*5+n)%len(v)]
+	}
+	return skText[t]
+}
+
 func genSkeleton(r *RNG, depth int) []string {
 	var out []string
 	n := 1 + r.Intn(3)
@@ -84,7 +107,7 @@ func skSource(tags []string) string {
 			// (also comments that contain tags: what is commented out is not there)
 			sb.WriteString([]string{"{# c #}", "{#x#}", "{# a b #}", "{# {% endif %} #}", "{# {% for i := 0; i < 2; i++ %} #}", "{#{% endswitch %}{% endfor %}#}", "{# {% if a == 1 %} #}"}[(i+len(tags))%7])
 		}
-		sb.WriteString(skText[t])
+		sb.WriteString(skTagText(t, i, len(tags)))
 	}
 	if len(tags)%3 == 0 {
 		sb.WriteString("{# tail #}")
@@ -169,7 +192,8 @@ func runC12(o *Options) *Result {
 		{"{% for i := 0; i <= n; i++ separator , %}", "{% endfor %}"}, {"{% for i := a; i != c.d; i-- sep | %}", "{% endfor %}"}, {"{% for k, v := range a.b.c %}", "{% endfor %}"},
 		{"{% for _, v := range x separator ; %}", "{% endfor %}"}, {"{% for k := range m %}", "{% endfor %}"}, {"{% if a.b >= -1.5 %}", "{% endif %}"}, {"{% if \"x y\" != s %}", "{% endif %}"},
 		{"{% if len(a.b) > 0 %}", "{% endif %}"}, {"{% if lenEq0(x) %}", "{% endif %}"}, {"{% if v, ok := f(x).(T); !ok %}", "{% endif %}"}, {"{% if v, ok := f(x) as T; ok %}", "{% endif %}"},
-		{"{% switch a.b %}{% case -1 %}", "{% endswitch %}"}, {"{% switch %}{% case a < -2 %}", "{% endswitch %}"}, {"{% switch x %}{% case 'q' %}", "{% endswitch %}"},
+		{"{% for i = 0; i < 3; i++ %}", "{% endfor %}"}, {"{% for i=0;i<3;i++ %}", "{% endfor %}"}, {"{% for k,v = range a.b %}", "{% endfor %}"}, {"{%for _,v:=range x%}", "{%endfor%}"},
+		{"{% if cap(a.b) == 0 %}", "{% endif %}"}, {"{% if x<=-1 %}", "{% endif %}"}, {"{%if a.b!='q'%}", "{%endif%}"}, {"{% switch a.b %}{% case -1 %}", "{% endswitch %}"}, {"{% switch %}{% case a < -2 %}", "{% endswitch %}"}, {"{% switch x %}{% case 'q' %}", "{% endswitch %}"},
 	}
 	pmHow = "spelling"
 	for _, sp := range spell {
